@@ -127,6 +127,8 @@ def search(ck, tier, seed):
              ("DiagonalNormal", normal.DiagonalNormal([3]), [3], None),
              ("ConditionalIndependentBernoulli", discrete.ConditionalIndependentBernoulli([3]), [3], 3),
              ("MADEMoG", mixture.MADEMoG(3, 8, 2, num_mixture_components=2), [3], 2),
+             ("ConditionalDiagonalNormal(scalar event)", normal.ConditionalDiagonalNormal([]), [], 2),
+             ("ConditionalDiagonalNormal(one feature)", normal.ConditionalDiagonalNormal([1]), [1], 2),
              ("Flow", Flow(MaskedAffineAutoregressiveTransform(3, 8, context_features=2), normal.StandardNormal([3])), [3], 2)]
     for name, d, ev, cf in dists:
         d.eval()
